@@ -576,7 +576,46 @@ func (c *Ctx) posVec(lo, hi int, pGpu float64, sparse float64) *resources.Resour
 
 var qNames = []string{"a", "ab", "b", "a1", "c"}
 
+// limitWorld: preemption driven by a queue limit, not by node space: roomy nodes, a parent with a tight maximum, a victim
+// leaf that is over its guarantee by less than one victim with several small victims, and an ask in an under-guaranteed
+// sibling that is larger than one victim (victims then come from calculateAdditionalVictims one by one).
+func limitWorld(c *Ctx) jm {
+	v := 1 + c.pick(3)
+	k := 2 + c.pick(3)
+	usage := k * v
+	g1 := usage - 1 - c.pick(v)
+	if g1 < 1 {
+		g1 = 1
+	}
+	askSize := v + 1 + c.pick(v)
+	cpu := func(n int) interface{} {
+		return encRes(resources.NewResourceFromMap(map[string]resources.Quantity{"cpu": resources.Quantity(n)}))
+	}
+	queues := []interface{}{
+		jm{"name": "root", "parent": nil, "cmax": nil, "cguar": nil, "props": jm{}},
+		jm{"name": "p", "parent": 0, "cmax": cpu(usage + 1 + c.pick(3)), "cguar": nil, "props": jm{}},
+		jm{"name": "a", "parent": 1, "cmax": nil, "cguar": cpu(g1), "props": jm{}},
+		jm{"name": "b", "parent": 1, "cmax": nil, "cguar": cpu(askSize + c.pick(3)), "props": jm{}},
+	}
+	nn := 1 + c.pick(3)
+	nodes := []interface{}{}
+	for i := 0; i < nn; i++ {
+		nodes = append(nodes, jm{"id": fmt.Sprintf("n%d", i), "cap": cpu(20 + c.pick(20)), "sched": true})
+	}
+	allocs := []interface{}{}
+	for i := 0; i < k; i++ {
+		allocs = append(allocs, jm{"key": fmt.Sprintf("v%02d", i), "app": fmt.Sprintf("app-2-%d", c.pick(2)), "q": 2, "node": c.pick(nn), "res": cpu(v),
+			"prio": c.pick(3), "released": false, "preempted": false, "req": false, "ph": false, "self": true, "orig": false, "ct": 2 + 2*i})
+	}
+	ask := jm{"key": "ask-0", "app": "app-3-0", "q": 3, "res": cpu(askSize), "prio": 2 + c.pick(3),
+		"other": true, "self": c.chance(0.5), "req": nil, "age": 400, "triggered": false}
+	return jm{"op": "reset", "queues": queues, "nodes": nodes, "allocs": allocs, "ask": ask}
+}
+
 func genWorld(c *Ctx) jm {
+	if c.chance(0.06) {
+		return limitWorld(c)
+	}
 	// 4% of the worlds use priorities from the edges of int32 (a priority gap may exceed MaxInt32)
 	extremePrio := c.chance(0.04)
 	prioOf := func(p int) int {
@@ -673,10 +712,17 @@ func genWorld(c *Ctx) jm {
 	nn := 1 + c.pick(6)
 	nodes := []interface{}{}
 	free := []*resources.Resource{}
+	// 25% of the worlds have roomy nodes: the ask fits in the free space, preemption is driven by queue limits and the
+	// victims come from calculateAdditionalVictims
+	roomy := c.chance(0.25)
 	for i := 0; i < nn; i++ {
 		cp := resources.NewResource()
 		cp.Resources["cpu"] = resources.Quantity(6 + c.pick(11))
 		cp.Resources["mem"] = resources.Quantity(6 + c.pick(11))
+		if roomy {
+			cp.Resources["cpu"] += resources.Quantity(30 + c.pick(30))
+			cp.Resources["mem"] += resources.Quantity(30 + c.pick(30))
+		}
 		if c.chance(0.4) {
 			cp.Resources["gpu"] = resources.Quantity(1 + c.pick(4))
 		}
